@@ -1261,11 +1261,18 @@ func readMinMax(cm *ChunkMeta, ref *record.Field, dst *record.Record, ctx *ReadC
 			return err
 		}
 
+		// a column that holds no value in this chunk has no minimum / maximum: the stored record
+		// then carries its initial state (false@0 for a boolean column, which would win every
+		// merge of min())
 		if isMin {
-			meta.SetMin(cb.min())
+			if cb.count() != 0 {
+				meta.SetMin(cb.min())
+			}
 			_, tm = meta.Min()
 		} else {
-			meta.SetMax(cb.max())
+			if cb.count() != 0 {
+				meta.SetMax(cb.max())
+			}
 			_, tm = meta.Max()
 		}
 		if readAux {
